@@ -167,13 +167,13 @@ func runC05(x *mc.X) {
 	shape := shapes[si]
 	// a logger enabled at debug level sees every stored and served response; none of that may show in what the caller gets
 	logger := ""
-	if backend == "rec" || backend == "memcache" {
+	if backend == "rec" || backend == "memcache" || x.Tier() == "thorough" {
 		logger = mc.Pick(x, "logger", []string{"", "text", "json"})
 	}
 	w, _, cleanup := c09WorldL(backend, logger)
 	defer cleanup()
 
-	unrelated := (shape.name == "multi-valued" || shape.name == "etag+lm") && framing == "content-length" && x.Choose("between-unrelated-exchanges", 2) == 1
+	unrelated := ((shape.name == "multi-valued" || shape.name == "etag+lm") && framing == "content-length" || x.Tier() == "thorough") && x.Choose("between-unrelated-exchanges", 2) == 1
 	if unrelated {
 		primeUnrelated(x, w)
 	}
